@@ -501,8 +501,12 @@ func (e *env) rpmOracle(name string, p pkg, a advisory, rc *rhelCase, prank, fra
 		want = want && rc.pass()
 	}
 	if got != fmt.Sprint(want) {
-		e.r.Fail("", fmt.Sprintf("%s: Vulnerable(pkg=%q arch=%q; fixed=%q advisory-version=%q arch=%q op=%d)=%s, by construction the package is %s the bound and the architecture test is %v",
-			name, p.version, p.arch, a.fixed, a.pkgVersion, a.pkgArch, uint(a.op), got, map[bool]string{true: "below", false: "not below"}[below], archExpected(a.op, p.arch, a.pkgArch)))
+		rel := map[bool]string{true: "strictly below the fix", false: "not below the fix"}[below]
+		if mode == "nofix" {
+			rel = map[bool]string{true: "not above the last affected version", false: "above the last affected version"}[below]
+		}
+		e.r.Fail("", fmt.Sprintf("%s: Vulnerable(pkg=%q arch=%q; fixed=%q advisory-version=%q arch=%q op=%d)=%s, by construction the package is %s and the architecture test is %v",
+			name, p.version, p.arch, a.fixed, a.pkgVersion, a.pkgArch, uint(a.op), got, rel, archExpected(a.op, p.arch, a.pkgArch)))
 	}
 }
 
@@ -568,19 +572,19 @@ func Run(cfg hx.Config) error {
 	}
 	e.rpmCaretWitness()
 	e.archOps(cfg.N(300, 3000))
-	e.rpmCompareOps(cfg.N(6000, 200000))
+	e.rpmCompareOps(cfg.N(6000, 400000))
 	e.rpmMatcherOps(cfg.N(40, 2000))
 	e.freeRpmMatcherOps(cfg.N(1500, 60000))
 	e.debWitness()
-	e.debCompareOps(cfg.N(5000, 150000))
+	e.debCompareOps(cfg.N(5000, 300000))
 	e.debMatcherOps(cfg.N(40, 2000))
-	e.apkCompareOps(cfg.N(5000, 150000))
+	e.apkCompareOps(cfg.N(5000, 300000))
 	e.apkMatcherOps(cfg.N(40, 2000))
-	e.rangeOps(cfg.N(1500, 50000))
-	e.ctlOps(cfg.N(25, 1000))
+	e.rangeOps(cfg.N(1500, 150000))
+	e.ctlOps(cfg.N(25, 2500))
 	e.urlQueryOps(cfg.N(600, 20000))
-	e.osvMatcherOps(cfg.N(30, 1500))
-	e.osvFreeOps(cfg.N(1500, 60000))
+	e.osvMatcherOps(cfg.N(30, 3000))
+	e.osvFreeOps(cfg.N(1500, 150000))
 	if err := e.flushPending(); err != nil {
 		return err
 	}
